@@ -136,6 +136,10 @@ Judge(e) ==
   /\ Chk(e.ev = "worker.sync.taken" => e.h > c.lastSync, "c14_conf_syncs_taken_out_of_order")
   /\ Chk(e.ev = "worker.election.taken" =>
            (P(e) \in ToSet(c.elecHist) \/ (c.m.phase = "election" /\ c.m.arg = P(e) /\ c.m.dec.res = "done")), "c15_conf_worker_took_an_election_the_slot_never_held")
+  \* C19: the main loop reacts to a trigger with the trigger's OWN (height, view) - cancel everything older than (h, v+1), request
+  \* (h, v+1) - so that a trigger of a pair that is over touches nothing of the current position
+  /\ Chk((e.ev \in {"main.election.ignored", "main.election.done"}) => (c.m.phase = "election" /\ c.m.arg = P(e) /\ c.m.ops = c.m.dec.ops /\ c.m.dec.res = Outcome(e)),
+         "c19_conf_election_trigger_handled_at_another_position")
   \* C19: a trigger that reaches the worker is the newest one the main loop handed over since the worker was last at the top of
   \* its loop - an older pair still waiting in the slot is superseded and must be gone (the same condition, as C19 words it)
   /\ Chk(e.ev = "worker.election.taken" =>
